@@ -104,37 +104,16 @@ theorem C05_server_choice_fails_with_forged_metadata :
   revert this
   decide
 
-/-- "announces it in grpc-encoding exactly when one is chosen": a response that carries
-messages announces precisely the chosen encoding (nothing if none was chosen). -/
+/-- "announces it in grpc-encoding exactly when one is chosen": every response other than a
+trailers-only error (i.e. every response that can carry messages, `grpc-status` in the trailers)
+announces precisely the chosen encoding — nothing if none was chosen.  (A trailers-only error
+response carries no message and no `grpc-encoding`: `C05_server_response_choice`.) -/
 theorem C05_server_announces_iff_chosen (direct : Bool) (acc snd : List Call) (req : SrvReq)
     (h : Handler) (hmd : h.forges = false) :
     let o := serve (configure direct acc) (configure direct snd) req h
-    o.frames ≠ [] →
-      o.enc = ((fromAcceptEncodingHeader req.accVals (configure direct snd)).map name).toList := by
-  intro o hne
-  have key : ∀ saw, (respond req.shape (fromAcceptEncodingHeader req.accVals (configure direct snd)) h saw).enc
-      = ((fromAcceptEncodingHeader req.accVals (configure direct snd)).map name).toList ∨
-      (respond req.shape (fromAcceptEncodingHeader req.accVals (configure direct snd)) h saw).frames = [] := by
-    intro saw
-    cases h with
-    | fail c => right; rfl
-    | reply n d md =>
-      have : md = [] := by simpa [Handler.forges] using hmd
-      subst this
-      left
-      cases fromAcceptEncodingHeader req.accVals (configure direct snd) <;>
-        simp [respond, asStr_eq_name]
-  rcases serve_cases (configure direct acc) (configure direct snd) req h with ⟨v, _, ho⟩ |
-    ⟨neg, c, k, _, _, _, ho⟩ | ⟨neg, c, k, _, _, _, ho⟩ | ⟨neg, f, _, _, _, ho⟩ | ⟨neg, _, _, _, ho⟩
-  · exact absurd (by rw [show o = _ from ho]; rfl) hne
-  · exact absurd (by rw [show o = _ from ho]; rfl) hne
-  · exact absurd (by rw [show o = _ from ho]; rfl) hne
-  · rcases key [.ok f] with hk | hk
-    · rw [show o = _ from ho]; exact hk
-    · exact absurd (by rw [show o = _ from ho]; exact hk) hne
-  · rcases key (decodeAll neg req.frames) with hk | hk
-    · rw [show o = _ from ho]; exact hk
-    · exact absurd (by rw [show o = _ from ho]; exact hk) hne
+    o.stWhere = .trl →
+      o.enc = ((fromAcceptEncodingHeader req.accVals (configure direct snd)).map name).toList :=
+  serve_enc_trl _ _ req h hmd
 
 /-- "… and otherwise sends identity": every message of every response is either flag 0 with the
 message bytes themselves, or flag 1 compressed with exactly the announced encoding. -/
@@ -157,75 +136,17 @@ theorem C05_reject_unsupported (direct : Bool) (acc snd : List Call) (req : SrvR
 is not the name of an enabled encoding. -/
 theorem C05_refuse_meaning (enabled : List Enc) (vals : List Bytes) :
     recv enabled vals = .refuse ↔
-      ∃ v rest, vals = v :: rest ∧ v ≠ identity ∧ ∀ e, enabled.contains e = true → v ≠ name e := by
-  cases vals with
-  | nil => simp [recv]
-  | cons v rest =>
-    have i1 : name .gzip ≠ identity := by decide
-    have i2 : name .deflate ≠ identity := by decide
-    have i3 : name .zstd ≠ identity := by decide
-    have n1 : name .deflate ≠ name .gzip := by decide
-    have n2 : name .zstd ≠ name .gzip := by decide
-    have n3 : name .zstd ≠ name .deflate := by decide
-    unfold recv
-    simp only [nameOf_eq, beq_iff_eq, List.cons.injEq, List.contains_eq_mem, decide_eq_true_eq]
-    constructor
-    · intro h
-      refine ⟨v, rest, ⟨rfl, rfl⟩, ?_⟩
-      by_cases c0 : v = identity
-      · simp [c0] at h
-      · refine ⟨c0, ?_⟩
-        intro e he hv
-        subst hv
-        cases e <;> simp_all
-    · rintro ⟨v', rest', ⟨rfl, rfl⟩, c0, hall⟩
-      simp only [c0, if_false]
-      by_cases c1 : v = name .gzip
-      · have := hall .gzip; simp_all
-      · by_cases c2 : v = name .deflate
-        · have := hall .deflate; simp_all
-        · by_cases c3 : v = name .zstd
-          · have := hall .zstd; simp_all
-          · simp [c1, c2, c3]
+      ∃ v rest, vals = v :: rest ∧ v ≠ identity ∧ ∀ e, enabled.contains e = true → v ≠ name e :=
+  recv_refuse_iff enabled vals
 
 /-- What `acceptListOk` says: one value, and an encoding's name is among its elements iff the
 encoding is enabled (every other element is `identity`). -/
 theorem C05_accept_list_meaning (enabled : List Enc) (vals : List Bytes)
     (h : acceptListOk enabled vals = true) :
-    ∃ v, vals = [v] ∧ (∀ e, offersB v e = true ↔ enabled.contains e = true) ∧
+    ∃ v, vals = [v] ∧ (∀ e, Offers v e ↔ enabled.contains e = true) ∧
       ∀ t ∈ tokens v, t = identity ∨ ∃ e, t = name e := by
-  unfold acceptListOk at h
-  split at h
-  · rename_i v
-    simp only [Bool.and_eq_true, List.all_eq_true] at h
-    obtain ⟨h1, h2⟩ := h
-    refine ⟨v, rfl, ?_, ?_⟩
-    · intro e
-      constructor
-      · intro ho
-        have hm : name e ∈ tokens v := by simpa [offersB] using ho
-        have := h1 _ hm
-        have hn : nameOf? (name e) = some e := by rw [← asStr_eq_name]; exact nameOf_asStr e
-        have hi : (name e == identity) = false := by cases e <;> decide
-        simpa [hn, hi] using this
-      · intro he
-        have := h2 e (by simpa using he)
-        simpa [offersB] using this
-    · intro t ht
-      have := h1 t ht
-      simp only [Bool.or_eq_true, beq_iff_eq] at this
-      rcases this with h | h
-      · exact Or.inl h
-      · right
-        rw [nameOf_eq] at h
-        by_cases c1 : t = name .gzip
-        · exact ⟨_, c1⟩
-        · by_cases c2 : t = name .deflate
-          · exact ⟨_, c2⟩
-          · by_cases c3 : t = name .zstd
-            · exact ⟨_, c3⟩
-            · simp [c1, c2, c3] at h
-  · cases h
+  obtain ⟨v, hv, h1, h2⟩ := acceptListOk_meaning enabled vals h
+  exact ⟨v, hv, fun e => by rw [← offersB_iff]; exact h1 e, h2⟩
 
 /-- One frame header: a message flagged as compressed is decoded with the negotiated encoding
 and with nothing else; with no negotiated encoding it is the INTERNAL "compressed-flag but no
